@@ -51,6 +51,20 @@ def _writes_to(names, loop):
     return out
 
 
+def _counted_call(e):
+    """the call whose result is counted by `e`: len(X) / len(list(X)) / sum(1 for _ in X), else None"""
+    if isinstance(e, ast.Call) and isinstance(e.func, ast.Name) and e.func.id == "len" and len(e.args) == 1:
+        inner = e.args[0]
+        if isinstance(inner, ast.Call) and isinstance(inner.func, ast.Name) and inner.func.id in ("list", "tuple") and inner.args:
+            inner = inner.args[0]
+        return inner if isinstance(inner, ast.Call) else None
+    if isinstance(e, ast.Call) and isinstance(e.func, ast.Name) and e.func.id == "sum" and len(e.args) == 1 and isinstance(e.args[0], ast.GeneratorExp):
+        g = e.args[0]
+        if isinstance(g.elt, ast.Constant) and g.elt.value == 1 and len(g.generators) == 1 and not g.generators[0].ifs and isinstance(g.generators[0].iter, ast.Call):
+            return g.generators[0].iter
+    return None
+
+
 def _exact_bound(res, v, f, acc, guards, bound_names, role_of):
     """The explicit size guard in front of the accumulation, as a truth table over (|source|, |target|, bound): the cell is
     reached exactly when |source| + |target| <= bound (the hyperedges of total size up to the bound)."""
@@ -126,13 +140,11 @@ def run(ctx):
                 res.check(all(c.args and norm(v.inline(c.args[0])) == "node" for c in calls), "K-ROLE", f, norm(calls[0]), "same-node", "the incident list of another node is counted", loc(v.fi, v.fi.node))
             for r in [n for n in ast.walk(v.fi.node) if isinstance(n, ast.Return) and n.value is not None]:
                 e = v.inline(r.value)
-                is_len = isinstance(e, ast.Call) and isinstance(e.func, ast.Name) and e.func.id == "len" and len(e.args) == 1
-                inner = e.args[0] if is_len else None
-                if is_len and isinstance(inner, ast.Call) and isinstance(inner.func, ast.Name) and inner.func.id in ("list", "tuple") and inner.args:
-                    inner = inner.args[0]
-                good = is_len and isinstance(inner, ast.Call) and isinstance(inner.func, ast.Attribute) and inner.func.attr in ("get_source_edges", "get_target_edges")
-                helper = isinstance(e, ast.Call) and bool(ctx.callees(v.fi, getattr(e, "_orig", e)))
-                res.add("K-ROLE", f, norm(r), "len", "ok" if good else ("unknown" if helper else "violation"), "" if good else "the degree is not the length of the role-specific incident list", loc(v.fi, r))
+                inner = _counted_call(e)
+                good = inner is not None and isinstance(inner.func, ast.Attribute) and inner.func.attr in ("get_source_edges", "get_target_edges")
+                # positively another quantity: the count of something that is not a role-specific incident list
+                other = inner is not None and isinstance(inner.func, ast.Attribute) and inner.func.attr in ("get_neighbors", "get_edges", "get_nodes", "get_incident_edges")
+                res.add("K-ROLE", f, norm(r), "len", "ok" if good else ("violation" if other else "unknown"), "" if good else "the degree is not the length of the role-specific incident list", loc(v.fi, r))
             with res.guard("F.check_usectx, res, v.fi, order, size"):
                 F.check_use(ctx, res, v.fi, ("order", "size"))
             with res.guard("F.check_forwardingctx, res, v.fi"):
@@ -163,9 +175,19 @@ def run(ctx):
                 it = v.inline(it)
                 it_ok = isinstance(it, ast.Call) and isinstance(it.func, ast.Attribute) and it.func.attr == "get_nodes" and not filtered
                 val = v.inline(val)
-                val_ok = isinstance(val, ast.Call) and isinstance(val.func, ast.Name) and val.func.id == inner and len(val.args) >= 2 and norm(val.args[1]) == tgt and isinstance(key, ast.Name) and key.id == tgt
+                key_ok = isinstance(key, ast.Name) and key.id == tgt
+                val_st = "unknown"
+                if isinstance(val, ast.Call) and isinstance(val.func, ast.Name) and val.func.id in ("in_degree", "out_degree"):
+                    val_st = "ok" if val.func.id == inner and len(val.args) >= 2 and norm(val.args[1]) == tgt else "violation"
+                else:
+                    # the count written out in place: the role-specific incident list of the same node
+                    cc = _counted_call(val)
+                    want = ROLE_OF.get(inner)
+                    if cc is not None and isinstance(cc.func, ast.Attribute) and cc.func.attr in ("get_source_edges", "get_target_edges"):
+                        val_st = "ok" if cc.func.attr == want and cc.args and norm(cc.args[0]) == tgt else "violation"
                 res.check(it_ok, "D-SEQ", f, norm(c)[:160], "all-nodes", "the sequence does not list every node of get_nodes() once", loc(v.fi, c))
-                res.check(val_ok, "D-SEQ", f, norm(c)[:160], "same-node", f"the value stored for a node is not {inner}(hg, <that node>)", loc(v.fi, c))
+                st_ = "ok" if key_ok and val_st == "ok" else ("violation" if val_st == "violation" or (isinstance(key, ast.Name) and not key_ok) else "unknown")
+                res.add("D-SEQ", f, norm(c)[:160], "same-node", st_, "" if st_ == "ok" else f"the value stored for a node is not {inner}(hg, <that node>)", loc(v.fi, c))
             with res.guard("F.check_forwardingctx, res, v.fi"):
                 F.check_forwarding(ctx, res, [v.fi])
             with res.guard("F.check_usectx, res, v.fi, order, size"):
@@ -178,7 +200,14 @@ def run(ctx):
         if len(augs) != 1:
             raise AnalysisError(f"{f}: accumulation idiom not recognised")
         a = augs[0]
-        res.check(isinstance(a.op, ast.Add) and isinstance(a.value, ast.Constant) and a.value.value == 1, "D-INC", f, norm(a), "one-per-edge", "a hyperedge does not contribute exactly 1 to its cell", loc(v.fi, a))
+        one = isinstance(a.op, ast.Add) and isinstance(a.value, ast.Constant) and a.value.value == 1
+        tallied = False
+        if isinstance(a.op, ast.Add) and isinstance(a.value, ast.Name):
+            # `for cell, count in Counter(<one cell per hyperedge>).items(): signature[cell] += count`
+            lp_ = v.enclosing(a, (ast.For,))
+            it_ = v.inline(lp_.iter) if lp_ is not None else None
+            tallied = lp_ is not None and isinstance(lp_.target, ast.Tuple) and len(lp_.target.elts) == 2 and norm(lp_.target.elts[1]) == a.value.id and isinstance(it_, ast.Call) and isinstance(it_.func, ast.Attribute) and it_.func.attr == "items" and isinstance(it_.func.value, ast.Call) and norm(it_.func.value.func).split(".")[-1] == "Counter"
+        res.add("D-INC", f, norm(a), "one-per-edge", "ok" if one or tallied else ("violation" if isinstance(a.value, ast.Constant) or not isinstance(a.op, ast.Add) else "unknown"), "" if one or tallied else "a hyperedge does not contribute exactly 1 to its cell", loc(v.fi, a))
         idx = a.target.slice.elts if isinstance(a.target.slice, ast.Tuple) else []
 
         def role_of(e):
